@@ -173,7 +173,11 @@ class WebSocketWriter:
     def _get_compressor(self, compress: int | None) -> ZLibCompressor:
         """Get or create a compressor object for the given compression level."""
         if compress:
-            # Do not set self._compress if compressing is for this frame
+            # Do not set self._compress if compressing is for this frame.
+            # The peer's inflate window will contain this message while the
+            # shared compressor has never seen it: drop the shared context so
+            # that the next message does not refer back to stale history.
+            self._compressobj = None
             return ZLibCompressor(
                 level=ZLibBackend.Z_BEST_SPEED,
                 wbits=-compress,
